@@ -283,7 +283,7 @@ def check_small(case, v):
         elif o.kind == "skipped":
             v.inconclusive = "conditioned game T_c > limit"
         else:
-            v.inconclusive = f"solve failed: {o.brief()} (reported by C06)"
+            v.fail("solve-raises", "a well-formed stopping game is not solved: " + o.brief(), sig=f"{o.kind}@{o.where}")
     if a.outcome.kind == "ok" and b.outcome.kind == "ok":
         if a.prob != b.prob:
             diff = [(s, x, y) for s, (x, y) in enumerate(zip(a.prob, b.prob)) if x != y][:3]
